@@ -21,6 +21,8 @@ SHAPES = {
     "chain4": (4, [True, False, True, False, False, True]),
     "fork4": (4, [True, True, False, True, False, False]),    # 0->1,0->2,0->3
     "triangle": (3, [True, True, True]),                      # 0->1,0->2,1->2 (skip-level edge 0->2)
+    "twochains": (4, [False, True, False, False, True, False]),   # 0->2, 1->3 (two independent chains, roots listed first)
+    "deepskip": (4, [True, False, True, True, False, True]),      # 0->1,1->2,2->3 and 0->3 (parents of 3 differ in depth by two)
     "tworootskip": (4, [False, True, True, True, False, True]),   # 0->2,1->2,0->3,2->3 (two roots, skip-level 0->3)
 }
 
